@@ -81,6 +81,7 @@ func observeCommon(res *fw.Result, rec *drive.CallRecord) {
 
 // errClass strips the variable parts of an error message.
 func errClass(msg string) string {
+	msg = reUUID.ReplaceAllString(msg, "<uuid>")
 	var b strings.Builder
 	skip := false
 	for _, r := range msg {
